@@ -195,6 +195,13 @@ def outcomes(spec, tag, value_srcs, input_srcs, ref_form="object", bytes_in=None
             mod = mat.modules[named["mod"]]
             if ref_form == "qualified-string":
                 T = f"{mod.__name__}.{named['name']}"
+            elif ref_form == "nested-qualified-string":
+                # the wrapper as an attribute of a class of its module (`class Order: Id = NewType(...)`): "mod.Order.Id"
+                mod.__dict__["Ns"] = type("Ns", (), {"__module__": mod.__name__, named["name"]: mod.__dict__[named["name"]]})
+                T = f"{mod.__name__}.Ns.{named['name']}"
+            elif ref_form == "nested-forwardref":
+                mod.__dict__["Ns"] = type("Ns", (), {"__module__": mod.__name__, named["name"]: mod.__dict__[named["name"]]})
+                T = typing.ForwardRef(f"Ns.{named['name']}", module=mod.__name__)
             elif ref_form == "forwardref":
                 T = typing.ForwardRef(named["name"], module=mod.__name__)
             elif ref_form.startswith("bare"):
@@ -299,6 +306,7 @@ def check_case(base_name, base, chain, position, data, col, counter):
     named_root = position == "root" and chain and chain[-1] in ("newtype", "alias", "stralias")
     if named_root:
         forms += ["qualified-string", "forwardref", "bare:0", "bare:1", "bare:2", "bare:5", "qualified-string@clash", "forwardref@clash",
+                  "nested-qualified-string", "nested-forwardref",
                   "qualifier-string:ClassVar", "qualifier-string:Final"]
     for form in forms:
         col.ev()
